@@ -59,6 +59,8 @@ COMMENT_POOL_ASCII = ["", " soma", "x", " CREATED BY tool v1.2", "\tindented", "
 JUNK_LINES = ["\x1a", "EOF", "end", "*", "\x00", "@", "...", "<<<<<<< HEAD", "1 1 0 0 0 1", "\x1a\x1a", "\xa0?"]
 COMMENT_POOL_UNI = [" neurone né à Zürich", " 神经元 形态", " µm ± 0.5", " ½ ¼ é"]
 COMMENT_POOL_LATIN = [" né à Zürich", " µm ± 0.5", " ½ ¼ é"]
+# numeric to Python, not to the SWC grammar: verdict EITHER, but an accepting reader must read Python's value
+LENIENT_TOKENS = ["1_0", "2_000.5", "0_2", "+3", "5e-0_1", "1_000", "00_7"]
 BAD_TOKENS = ["abc", "x", "1x", "--", "?", "1;2", "NaN%", "soma", "1..2", "e", "+-1", "1,5", "2,0", "0,", ",", "3,25", "1:2", "1/2"]
 
 
@@ -249,6 +251,10 @@ def apply_line_faults(rng: Prng, lines: list[str], applied: list[str]) -> None:
         if kind == "badtoken":
             f = rng.below(min(7, len(toks)))
             toks[f] = rng.choice(BAD_TOKENS)
+            if rng.chance(0.12):
+                toks[f] = rng.choice(LENIENT_TOKENS)
+                if f == 6 and toks[f] != "5e-0_1":
+                    toks[f] = "-1" if rng.chance(0.2) else toks[f]
             lines[i] = " ".join(toks) + eol
         elif kind == "dropfields":
             keep = rng.randint(1, 6)
@@ -306,6 +312,10 @@ def generate(rng: Prng, tier: str) -> dict:
                  "mult": al.choice([1, 1, 1, 2]), "delta": al.choice([0, 0, 0, -1, 1])}
         if align["block"] * align["mult"] > 140000:
             align["mult"] = 1
+        if al.chance(0.12):
+            # texts of one or two MiB (tens of thousands of rows): a reader that pulls its input in bulk with a size
+            # hint, or gives up after some amount, differs only beyond that amount
+            align["block"], align["mult"] = 1048576, 1
     lines = gen_lines(w, tier, sort_mode, n_extra, encoding, align)
     # a Tree keeps its ids in 32-bit columns: 64-bit sample numbers only reach it re-based (reset_index=True)
     wide_ids = any(t[:1] and t[0].lstrip("+").isdigit() and int(t[0]) >= 2**31 for t in (l.split() for l in lines))
@@ -329,6 +339,12 @@ def generate(rng: Prng, tier: str) -> dict:
             opts["encoding"] = encoding
         if n_extra and api == "read_swc":
             opts["extra_cols"] = [f"e{i}" for i in range(n_extra)]
+            xn = rng.stream(f"extra_names{s}")
+            if xn.chance(0.4):
+                # the names other tools give to extended (eswc) columns - a name says nothing about the values a row
+                # carries there: every requested field is still "numerically equal to what the row says"
+                opts["extra_cols"] = xn.sample(["level", "mode", "timestamp", "teraflyindex", "feature_value", "seg_id",
+                                                "label", "score", "e0"], n_extra)
         elif n_extra:
             # Tree.from_swc keeps the seven standard columns; extra fields are "beyond the requested columns"
             pass
@@ -339,6 +355,15 @@ def generate(rng: Prng, tier: str) -> dict:
             if s == 0 or fp.chance(0.5):
                 step["eio"] = round(fp.random(), 6) if fp.chance(0.85) else fp.choice([0.0, 1.0])
         steps.append(step)
+    if align and align["block"] >= 1 << 20:
+        # cost bound: byte-sized chunks add nothing at this scale and would cost tens of seconds per read
+        for step in steps:
+            st = step["stream"]
+            if "chunks" in st:
+                st["chunks"] = [max(c, 997) for c in st["chunks"]]
+            for k in ("buffer_size", "text_chunk"):
+                if k in st:
+                    st[k] = max(st[k], 509)
     ps = rng.stream("population")
     for step in steps:
         if ps.chance(0.1):
@@ -414,13 +439,13 @@ def norm_comments(cs):
     return [c.strip() for c in cs if not swc_text.is_header_comment(c)]
 
 
-def extract(api: str, result, n_extra_cols: int):
+def extract(api: str, result, n_extra_cols: int, names=None):
     """-> (columns dict of lists, comments) from a DataFrame+comments or a Tree."""
     if api == "read_swc":
         df, comments = result
         cols = {k: df[k].to_numpy().tolist() for k in ["id", "type", "x", "y", "z", "r", "pid"]}
         for k in range(n_extra_cols):
-            cols[f"e{k}"] = df[f"e{k}"].to_numpy().tolist()
+            cols[f"e{k}"] = df[names[k] if names else f"e{k}"].to_numpy().tolist()
         lens = {len(df[c]) for c in df.columns}
         return cols, list(comments), lens
     tree = result
@@ -442,7 +467,15 @@ def judge(step, verdict, outcome, n_extra_cols, warns) -> dict | None:
                     "detail": f"{verdict['why']}; returned {len(cols['id'])} rows"}
         return None
     if v == EITHER:
-        return None
+        # tokens Python reads as numbers but the strict grammar does not: rejecting is fine, and so is accepting - with
+        # the one defensible reading. Judged like an accepted text, under tags of their own.
+        if kind != "ok" or "if_accepted" not in verdict:
+            return None
+        w = judge(step, dict(verdict["if_accepted"], verdict=MUST_ACCEPT), outcome, n_extra_cols, warns)
+        if w is not None:
+            w["tag"] = "lenient_" + w["tag"]
+            w["detail"] = f"accepted a text with {verdict['why']}, but: " + w["detail"]
+        return w
     rows = verdict["rows"]
     opts = step["opts"]
     single_tree = swc_text.describes_single_tree(rows)
@@ -452,7 +485,7 @@ def judge(step, verdict, outcome, n_extra_cols, warns) -> dict | None:
             # graph may be refused is outside C02 (multi-root reading is C18's subject)
             return None
         return {"tag": "rejected_wellformed", "op": api, "detail": f"{outcome[1]}: {outcome[2][:200]}"}
-    cols, comments, lens = extract(api, outcome[1], n_extra_cols)
+    cols, comments, lens = extract(api, outcome[1], n_extra_cols, step["opts"].get("extra_cols"))
     if len(lens) != 1:
         return {"tag": "ragged_table", "op": api, "detail": f"column lengths {sorted(lens)}"}
     n = len(cols["id"])
@@ -650,7 +683,7 @@ def execute(program: dict) -> dict:
             v = judge(step, verdict, outcome, n_extra_cols, warns)
             nrows = None
             if outcome[0] == "ok":
-                cols, comments, _ = extract(step["api"], outcome[1], n_extra_cols)
+                cols, comments, _ = extract(step["api"], outcome[1], n_extra_cols, opts.get("extra_cols"))
                 nrows = len(cols["id"])
                 if v is None and verdict["verdict"] == MUST_ACCEPT and step["api"] == "read_swc":
                     accepted_tables.append((si, opts.get("sort_nodes"), opts.get("reset_index", True),
